@@ -196,12 +196,45 @@ Section Decode.
   Definition key_bits (k : kt) : Z := match k with KW _ => 256 | KN b _ => b end.
   Definition bitsize (keys : list kt) : Z := fold_right (fun k acc => key_bits k + acc) 0 keys.
 
+  (* ex.int_of(offsets[0]) = utils.int_of(x, err, path.concretization.substitution): a
+     non-constant term is simplified after substituting every `f_sha3_N(const)` that
+     sha3_data equated with its concrete hash (only when the substitution is non-empty).
+     So a constant sum, or a registered f_sha3_N(const) that decode left alone, is a slot. *)
+  Definition resolve_term (t : loc) : option Z :=
+    match t with
+    | K z => Some z
+    | ShaC b p =>
+        match find (fun en => (r_bits en =? b) && (r_pre en =? p)) (hash_ids R) with
+        | Some en => Some (r_hash en)
+        | None => None
+        end
+    | _ => None
+    end.
+  Definition int_of_slot (ts : list loc) : option Z :=
+    match ts with
+    | [K z] => Some z
+    | _ =>
+        match hash_ids R with
+        | [] => None
+        | _ =>
+            (fix go (ts : list loc) : option Z :=
+               match ts with
+               | [] => Some 0
+               | t :: r => match resolve_term t, go r with Some a, Some b => Some ((a + b) mod W) | _, _ => None end
+               end) ts
+        end
+    end.
+
   (* get_key_structure: (slot, keys, num_keys, size_keys) *)
   Definition key_structure (fuel : nat) (l : loc) : res (Z * list kt * Z * Z) :=
     bind (decode_sol fuel l)
       (fun d => match d with
                 | [] => Err 1
-                | KW [K z] :: keys => Ok (z, keys, Z.of_nat (length keys), bitsize keys)
+                | KW ts :: keys =>
+                    match int_of_slot ts with
+                    | Some z => Ok (z, keys, Z.of_nat (length keys), bitsize keys)
+                    | None => Err 2
+                    end
                 | _ :: _ => Err 2
                 end).
 
